@@ -12,3 +12,4 @@ for d in "$@"; do
   git -C /repo checkout -- .
   echo "$d check=$id exit=$rc ${v:-NO-VIOLATION}"
 done
+( cd /verif/harness && CARGO_NET_OFFLINE=true CARGO_TARGET_DIR=/verif/build/target RUSTFLAGS="--cfg tikv_raft_rs_verif" cargo build --offline >/dev/null 2>&1 )
